@@ -25,7 +25,8 @@ def main():
     dst = os.path.join(V, "build", "mutants", name)
     shutil.rmtree(dst, ignore_errors=True)
     os.makedirs(os.path.dirname(dst), exist_ok=True)
-    shutil.copytree("/repo", dst, ignore=shutil.ignore_patterns("target", ".git"))
+    # VERIF_BASE_REPO: tree to copy instead of /repo (e.g. a worktree with pending fix patches applied)
+    shutil.copytree(os.environ.get("VERIF_BASE_REPO", "/repo"), dst, ignore=shutil.ignore_patterns("target", ".git", "*.orig"))
     r = subprocess.run(["patch", "-p1", "-s", "-i", patch], cwd=dst)
     if r.returncode != 0:
         print("patch does not apply")
